@@ -167,7 +167,7 @@ func (r *Run) Finish() int {
 		"rule":                r.Rule,
 		"samples":             r.Samples,
 		"inconclusive":        r.Inconclusive,
-		"known_findings_reproduced": r.known,
+		"known_findings_reproduced": append([]string{}, r.known...),
 	}
 	keys := make([]string, 0, len(r.Extra))
 	for k := range r.Extra {
